@@ -303,9 +303,13 @@ def run(tier="quick", seed=0, jobs=16):
             import random
 
             rng = random.Random(seed + pi)
-            single = [x for x in faults(pop, e) if isinstance(x[1], pd.DataFrame)]
+            # row-reversed variants cannot be merged column-wise; two flips of the joint-assessment flag
+            # may cancel (both spouses flipped = consistent again), so at most one of them per pair
+            single = [x for x in faults(pop, e) if isinstance(x[1], pd.DataFrame) and "rows reversed" not in x[0]]
             for _ in range(6 if tier == "quick" else 40):
                 (d1, a), (d2, b) = rng.sample(single, 2)
+                if "gemeinsam_veranlagt" in d1 and "gemeinsam_veranlagt" in d2:
+                    continue
                 data = a.copy()
                 for c in b.columns:
                     if c in data.columns and len(b) == len(data) and not b[c].equals(pop[c] if c in pop.columns else b[c]):
